@@ -147,6 +147,10 @@ type Env struct {
 	G     *scheduler.ExecutionGraph
 	Dir   string
 	Pause time.Duration
+	// OnDone, when set, is called by the done-channel consumer for every node
+	// the scheduler hands over (this is the instant at which the agent persists
+	// a status). Setting it forces a done channel even when Case.Done is 0.
+	OnDone func(n *scheduler.Node)
 }
 
 // Prepare builds the world, the real scheduler and the real execution graph.
@@ -331,14 +335,17 @@ func (e *Env) Drive(bound time.Duration) *Result {
 	}
 	var done chan *scheduler.Node
 	var consumerWG sync.WaitGroup
-	if c.Done > 0 {
+	if c.Done > 0 || e.OnDone != nil {
 		done = make(chan *scheduler.Node)
 		consumerWG.Add(1)
 		slow := c.Done == 2
 		go func() {
 			defer consumerWG.Done()
 			i := 0
-			for range done {
+			for n := range done {
+				if e.OnDone != nil {
+					e.OnDone(n)
+				}
 				if slow {
 					i++
 					time.Sleep(time.Duration(i%3) * pause)
